@@ -24,7 +24,7 @@ EXPLANATION = (
     "declares no schema element (what a lone Thrift STOP byte parses as), returns NULL - the arena's answer "
     "to a zero-size request is obtained by executing carquet_arena_calloc, not assumed; (3) carquet_writer_abort closes the stream "
     "and then removes the path for path-based writers, and whether it removes depends only on {owns_file, "
-    "file, path}. Decides these clauses, not that every prefix of every file is rejected (that depends on "
+    "file, path}. (8) a member the writer releases outside its destructor - directly or by handing it (or a local copy of it that can still be current) to a function that frees its parameter - is assigned again before the function returns, so abort and close do not release it a second time (R27). Decides these clauses, not that every prefix of every file is rejected (that depends on "
     "byte values).")
 
 FW = "src/writer/file_writer.c"
